@@ -18,6 +18,7 @@ func init() {
 // pickGrammar selects a grammar of the family (concrete fork).
 func pickGrammar(filter func(g *Grammar) bool) *Grammar {
 	if k := rt.Param("systematic", 0); k > 0 {
+		Unstratified = rt.Param("unstratified", 0) == 1
 		// the generated part of the family: k grammars sampled from the seed
 		return Systematic(rt.Param("seed", 0), rt.Choose("grammar", k))
 	}
